@@ -168,7 +168,7 @@ func genC16(t *Tape) (*SrvScenario, int) {
 			var r SrvReq
 			if ci == subject {
 				class := c16Classes[t.Pick(6, 4, 4, 4, 4, 1)]
-				mode := HandlerMode(t.Pick(4, 2, 1, 2, 2, 1, 2))
+				mode := HandlerMode(t.Pick(4, 2, 1, 2, 2, 1, 2, 2))
 				r = genC16Req(t, class, t.Choose(len(AllFCs)), byte(1+ci), tid)
 				r.Mode = mode
 				r.Code = []byte{4, 1, 2, 3, 6, 10}[t.Choose(6)]
